@@ -206,6 +206,19 @@ func (b c32Built) find(q c32Req) c32Obs {
 	return c32Obs{St: status, R: k}
 }
 
+// c32IterOrder is the order in which one `range` over the router's map delivers the routes right now
+// (the same runtime iteration FindRoute uses).  Only used to show that repetition explores the orders.
+func c32IterOrder(r *router.Router, limit int) string {
+	var sb strings.Builder
+
+	it := reflect.ValueOf(r).Elem().FieldByName("routes").MapRange()
+	for n := 0; it.Next() && n < limit; n++ {
+		sb.WriteString(it.Key().FieldByName("endpoint").String() + " " + it.Key().FieldByName("method").String() + ";")
+	}
+
+	return sb.String()
+}
+
 func c32Perms(n int) [][]int {
 	if n == 0 {
 		return [][]int{{}}
@@ -377,7 +390,7 @@ func c32Run(t *testing.T) {
 				}
 			}
 
-			for k, rt := range c.T {
+			for _, rt := range c.T {
 				key := c32Text(rt.E) + " " + rt.M
 
 				b, ok := soloCache[key]
@@ -385,8 +398,6 @@ func c32Run(t *testing.T) {
 					b = c32Build([]c32Route{rt}, []int{0})
 					soloCache[key] = b
 				}
-
-				_ = k
 
 				c.Solo = append(c.Solo, b.find(c.Q).St)
 			}
@@ -407,5 +418,41 @@ func c32Run(t *testing.T) {
 
 	if err := sc.Err(); err != nil {
 		t.Fatal(err)
+	}
+
+	// exploration probe (not a verdict): how many of the 6 orders of a 3-route table does iteration show over
+	// every insertion order and `reps` iterations, and how many different first routes on the big routers
+	probe := map[string]int{}
+	three := []c32Route{{M: "GET", E: []string{"a"}}, {M: "GET", E: []string{"b"}}, {M: "GET", E: []string{"c"}}}
+	orders := map[string]bool{}
+
+	for _, order := range c32Perms(3) {
+		b := c32Build(three, order)
+		for k := 0; k < reps; k++ {
+			orders[c32IterOrder(b.r, 3)] = true
+		}
+	}
+
+	probe["orders_of_3"] = len(orders)
+
+	firsts := map[string]bool{}
+	for _, r := range realObjs {
+		for k := 0; k < reps; k++ {
+			firsts[c32IterOrder(r, 1)] = true
+		}
+	}
+
+	for _, b := range realSynth {
+		for k := 0; k < reps; k++ {
+			firsts[c32IterOrder(b.r, 1)] = true
+		}
+	}
+
+	probe["real_first_routes"] = len(firsts)
+	probe["real_routers"] = len(realObjs) + len(realSynth)
+
+	if p := os.Getenv("VERIF_PROBE"); p != "" {
+		pb, _ := json.Marshal(probe)
+		os.WriteFile(p, pb, 0o644)
 	}
 }
